@@ -215,13 +215,25 @@ fn s_maps(t: &mut Tape, ctx: &mut Ctx) -> Result<(), Failure> {
             other => return Err(Failure::new("c15:json-roundtrip-differs", format!("JSON round trip (Arguments) gives {:?}\n{js2}", other.map(|_| "another map"))).with(detail.clone())),
         }
         if !items.is_empty() {
-            // duplicate key
+            // hand-written JSON (own printer); control: without the duplicate it parses to the same map
+            let entry = |n: &str, v: &Val, ty: &Ty| format!("\"{n}\": {{\"value\": \"{}\", \"type\": \"{}\"}}", render::val_text(v, ty), ty.resolve());
+            let entries: Vec<String> = items.iter().map(|(n, v, ty)| entry(n, v, ty)).collect();
+            let plain = format!("{{{}}}", entries.join(", "));
+            match catch(|| serde_json::from_str::<WitnessValues>(&plain).map_err(|e| e.to_string())).map_err(|p| pfail("serde_json::from_str", &p, &plain))? {
+                Ok(m) if m == a => {}
+                other => return Err(Failure::new("c15:valid-json-rejected", format!("hand-written JSON is not read back as the same map ({:?})\n{plain}", other.map(|_| "another map"))).with(detail.clone())),
+            }
             let (n, v, ty) = &items[t.index(items.len())];
-            let entry = format!("\"{n}\": {{\"value\": \"{}\", \"type\": \"{}\"}}", render::val_text(v, ty), ty.resolve());
-            let body = js.trim().trim_start_matches('{').trim_end_matches('}').to_string();
-            let dupjs = format!("{{{body}, {entry}}}");
+            let mut dup = entries.clone();
+            let dv = if t.bool() { v.clone() } else { valgen::gen_val(t, ty) };
+            let at = t.index(dup.len() + 1);
+            dup.insert(at, entry(n, &dv, ty));
+            let dupjs = format!("{{{}}}", dup.join(", "));
             if let Ok(Ok(_)) = catch(|| serde_json::from_str::<WitnessValues>(&dupjs)) {
                 return Err(Failure::new("c15:duplicate-name-in-json-accepted", format!("a JSON file that assigns `{n}` twice is accepted\n{dupjs}")).with(detail.clone()));
+            }
+            if let Ok(Ok(_)) = catch(|| serde_json::from_str::<Arguments>(&dupjs)) {
+                return Err(Failure::new("c15:duplicate-name-in-json-accepted", format!("a JSON argument file that assigns `{n}` twice is accepted\n{dupjs}")).with(detail.clone()));
             }
             ctx.label("duplicate:json");
         }
